@@ -52,6 +52,7 @@ type regState struct {
 	clientCred  auth.Credential // what the client holds for this host
 	basicAsked  bool            // the registry has sent a Basic challenge in this history
 	anonymousOK bool
+	credErr     bool // the client's CredentialFunc fails for this registry
 }
 
 type issued struct {
@@ -529,6 +530,8 @@ func (w *world) RoundTrip(req *http.Request) (*http.Response, error) {
 // requestDeadline bounds every request of a sequential history (they take microseconds).
 const requestDeadline = 5 * time.Second
 
+var errCredHelper = errors.New("credential helper failed")
+
 var errInjected = errors.New("fakeNet: injected transport failure")
 
 // injectFailure is called (under w.mu) once per send after it was logged and
@@ -783,6 +786,7 @@ func newWorld(r *common.Rand) *world {
 			g.clientCred.AccessToken = ""
 		}
 		g.alias = fmt.Sprintf("10.0.0.%d:5000", i+1)
+		g.credErr = r.Chance(1, 12)
 		w.regs = append(w.regs, g)
 		w.byHost[g.host] = g
 		w.byHost[g.alias] = g
@@ -820,6 +824,9 @@ func (w *world) randomizeMode(g *regState) {
 // validFor tells whether the client's credential lets a Do call succeed against g in its current mode.
 func (w *world) validFor(g *regState, oauth2 bool) bool {
 	c := g.clientCred
+	if g.credErr && g.mode != modeOpen {
+		return false
+	}
 	switch g.mode {
 	case modeOpen:
 		return true
@@ -862,6 +869,17 @@ func sortedTokens(m map[string]*issued) []tokRef {
 	}
 	sort.Slice(l, func(i, j int) bool { return l[i].token < l[j].token })
 	return l
+}
+
+// credErrList renders the registries whose CredentialFunc fails (" n idx*").
+func (w *world) credErrList() string {
+	var l []string
+	for _, g := range w.regs {
+		if g.credErr {
+			l = append(l, fmt.Sprintf("%d", g.idx))
+		}
+	}
+	return strings.TrimRight(fmt.Sprintf(" %d %s", len(l), strings.Join(l, " ")), " ")
 }
 
 func credFlags(c auth.Credential) string {
@@ -909,6 +927,9 @@ func (w *world) credentialFunc() auth.CredentialFunc {
 		defer w.mu.Unlock()
 		// credentials are configured for the registry's NAME only (not for its alias address)
 		if g := w.byHost[hostport]; g != nil && g.host == hostport {
+			if g.credErr {
+				return auth.EmptyCredential, errCredHelper
+			}
 			return g.clientCred, nil
 		}
 		return auth.EmptyCredential, nil
@@ -928,7 +949,9 @@ func classifyResult(res *http.Response, err error) string {
 		return "=nocred"
 	case strings.Contains(err.Error(), "missing username or password"):
 		return "=missing"
-	case strings.Contains(err.Error(), "not rewindable"):
+	case errors.Is(err, errCredHelper):
+		return "=crederr"
+	case strings.Contains(err.Error(), "not rewindable"), strings.Contains(err.Error(), "failed to get request body"):
 		return "=rewind"
 	case errors.Is(err, errInjected) || errors.Is(err, context.Canceled):
 		return "=transport"
@@ -959,6 +982,7 @@ func historyCase(hseed uint64) {
 	for _, g := range w.regs {
 		fmt.Fprintf(&line, " %d %s", g.idx, credFlags(g.clientCred))
 	}
+	line.WriteString(w.credErrList())
 	nreq := 4 + r.Intn(run.Scale(9, 13))
 	nreqModel := nreq
 	head := line.String()
@@ -981,7 +1005,7 @@ func historyCase(hseed uint64) {
 		case 0:
 			method, path, body = http.MethodPost, "/v2/"+repo+"/blobs/uploads/", "rewind"
 		case 1:
-			method, path, body = http.MethodPut, "/v2/"+repo+"/manifests/v1", common.Pick(r, []string{"rewind", "once"})
+			method, path, body = http.MethodPut, "/v2/"+repo+"/manifests/v1", common.Pick(r, []string{"rewind", "once", "geterr"})
 		case 2:
 			method, path = http.MethodDelete, "/v2/"+repo+"/manifests/v1"
 		}
@@ -1007,6 +1031,8 @@ func historyCase(hseed uint64) {
 			rd = bytes.NewReader([]byte(payload))
 		case "once":
 			rd = onceReader{strings.NewReader(payload)}
+		case "geterr":
+			rd = bytes.NewReader([]byte(payload))
 		}
 		target := g.host
 		if r.Chance(1, 6) {
@@ -1018,6 +1044,9 @@ func historyCase(hseed uint64) {
 			panic(err)
 		}
 		req.Host = g.host
+		if body == "geterr" {
+			req.GetBody = func() (io.ReadCloser, error) { return nil, errors.New("body source is gone") }
+		}
 		w.cur, w.events, w.answers, w.regSends, w.fetches = g, nil, nil, 0, 0
 		w.violations = nil
 		w.noScope = false
@@ -1041,7 +1070,7 @@ func historyCase(hseed uint64) {
 			}
 			run.Count("history/failure-injected")
 		}
-		valid := w.validFor(g, oauth2) && g.mode != modeWeird && body != "once" && w.failAt < 0
+		valid := w.validFor(g, oauth2) && g.mode != modeWeird && body != "once" && body != "geterr" && w.failAt < 0
 		// a request that already carries an Authorization header is passed through as it is
 		// (not a model request: it must not touch the cache, which the following requests show)
 		if r.Chance(1, 25) {
